@@ -18,6 +18,7 @@ from tools import vlib, units, gotoexec as G, e3lib as E, extract as X
 import c14_exact as X14, c17
 
 PROG = None
+C11 = None         # checks/c11.py with its program built (set by add() for monotonic runs): the real NNLS solver instead of an arbitrary non-negative answer
 F = lambda q: G.FV(Fr(q), Fr(q))
 PRELUDE_EXTRA = r'''
 #include <string.h>
@@ -132,6 +133,10 @@ def run_case(args):
                 seen["A"] = sparse_entries(a[0]); seen["b"] = dense_of(a[1]); seen["which"] = which
                 nr, nc, m = seen["A"]; Ad = [[m.get((i, j), Fr(0)) for j in range(nc)] for i in range(nr)]
                 sol = solve(Ad, seen["b"][2]) if which == "cholesky_solve" else xsol
+                if which == "nnls_normal_block3" and C11 is not None:
+                    # the real solver (extracted nnls_normal_block3, executed exactly by C11's machinery) on the system this fit hands over
+                    try: sol = C11.solve_with("nnls_normal_block3", Ad, seen["b"][2], nthreads=1 + len(Ad) % 3, fl_mode=("default", "updates", "recompute")[len(Ad) % 3]); seen["real"] = True
+                    except G.ExecError as ex: seen["real_error"] = "%s%s" % (ex, getattr(ex, "loc", "")); sol = xsol
                 if sol is None: return G.NULL
                 seen["x"] = sol
                 o = it_.new_obj("dense", 1); o.cells[0] = dict(nrow=len(sol), ncol=1, x=G.Ptr(it_.array("solx", [F(v) for v in sol]), 0)); return G.Ptr(o, 0)
@@ -201,6 +206,18 @@ def run_case(args):
         got = [c.num if c is not None else None for c in outc.cells]
         wantc = [sum(T[i][k] * seen["x"][k] for k in range(side)) for i in range(side)] if mono is not None else seen["x"]
         ob("G3 the coefficients written out are the solver's result%s" % (" summed along the monotonic dimension" if mono is not None else ""), got == wantc, "got %s..., expected %s..." % ([str(v) for v in got[:5]], [str(v) for v in wantc[:5]]))
+        if mono is not None and C11 is not None:
+            ob("G5 the extracted nnls_normal_block3 returns on the system of this fit", seen.get("real", False), seen.get("real_error", ""))
+            if seen.get("real"):
+                xs_ = seen["x"]; tol = side * Fr(2) ** -52 * 10 ** 5; sc = max([abs(v) for v in rT] + [Fr(1)])
+                gr = [sum(want[i][j] * xs_[j] for j in range(side)) - rT[i] for i in range(side)]
+                badk = [i for i in range(side) if xs_[i] < 0 or (xs_[i] > tol and abs(gr[i]) > tol * sc) or (xs_[i] <= tol and gr[i] < -tol * sc)]
+                ob("G6 its result is non-negative and satisfies the Karush-Kuhn-Tucker conditions of the transformed problem within the stopping tolerance: the increments are the constrained optimum", not badk, "violated at %s; x = %s" % (badk[:4], [str(v) for v in xs_[:6]]))
+                # hence the coefficients written out never decrease along the monotonic dimension
+                strides = [1] * nd
+                for d in range(nd - 2, -1, -1): strides[d] = strides[d + 1] * nspl[d + 1]
+                dec = [q for q in range(side) if (q // strides[mono]) % nspl[mono] > 0 and got[q] is not None and got[q - strides[mono]] is not None and got[q] < got[q - strides[mono]]]
+                ob("G7 the coefficients written out never decrease along the monotonic dimension", not dec, "decrease at flat indices %s" % dec[:5])
         if mono is None:
             best = solve(want, rhs)
             ob("G4 with an exact solver the result is the exact minimiser of the penalised weighted least-squares objective", best is not None and got == best, "coefficients differ from the minimiser")
@@ -215,6 +232,12 @@ def add(rep, thorough, monotonic, name):
     prog, params, fns = build(); PROG = (prog, params)
     for f in fns:
         if f.name in ("glamfit_complex", "flatten_ndarray_to_sparse", "box", "cholmod_tril"): rep.functions.append(f.info())
+    if monotonic:
+        global C11
+        import c11 as _c11
+        p11, params11, fns11 = _c11.build(); _c11.PROG = (p11, params11); C11 = _c11
+        for f in fns11:
+            if f.name in ("nnls_normal_block3", "modify_factor", "modify_factor_p", "walk_descents", "evaluate_descent", "calc_residual"): rep.functions.append(f.info())
     tasks = problems(monotonic, thorough); t0 = time.time()
     with mp.Pool(min(vlib.NCORES, 12)) as pool: res = pool.map(run_case, tasks, chunksize=1)
     flat = [o for r in res for o in r]
